@@ -719,12 +719,18 @@ def dateTimeResolution (u : Uni) (slot : Slot) : Except String (Option (List Val
 /-! ## `BaseDateTimeParser.merge_date_and_time` (after both sub-entities are parsed) -/
 
 /-- `pmTime` / `amTime`: `regex.search(pm_time_regex / am_time_regex, source)` is a match. -/
-def mergeDateAndTime (dateSlot timeSlot : Slot) (pmTime amTime : Bool) : Except String Res :=
+def mergeDateAndTime (dateSlot timeSlot : Slot) (pmTime amTime : Bool) (shiftOnlyAmbiguous : Bool := false) :
+    Except String Res :=
   match dateSlot.res, timeSlot.res with
   | some dr, some tr =>
     let time := tr.future
+    -- Variant switch (DESIGN 2.5): `shiftOnlyAmbiguous = false` is the code as found — the "morning / afternoon /
+    -- night" word in the text shifts the hour whatever the time parser decided (finding `night-attached-shift`);
+    -- `true` = the shift is applied only when the time was left ambiguous (`comment = 'ampm'`).
+    let shift := !shiftOnlyAmbiguous || tr.comment == sAmPm
     let hour : Nat :=
-      if pmTime && time.hh < 12 then time.hh + 12 else if amTime && time.hh ≥ 12 then time.hh - 12 else time.hh
+      if shift && pmTime && time.hh < 12 then time.hh + 12
+      else if shift && amTime && time.hh ≥ 12 then time.hh - 12 else time.hh
     let timeStr := timeSlot.timex
     let timeStr := if endsWith timeStr sAmPm then sliceI timeStr 0 (-4) else timeStr
     let timeStr := 84 :: fmtD 2 hour ++ timeStr.drop 3
@@ -869,9 +875,10 @@ def resolveTime (u : Uni) (cfg : TimeCfg) (g : TimeGroups) (ref : DT) : Except S
 /-- datetime entity `<date> at <time>`: both sub-parsers, `merge_date_and_time`, `BaseDateTimeParser.parse`,
 `_date_time_resolution`. -/
 def resolveDateAtTime (u : Uni) (dcfg : DateCfg) (dg : DateGroups) (writtenYear : Int) (tcfg : TimeCfg)
-    (tg : TimeGroups) (pmTime amTime : Bool) (ref : DT) : Except String (Option (List Value)) := do
+    (tg : TimeGroups) (pmTime amTime : Bool) (ref : DT) (shiftOnlyAmbiguous : Bool := false) :
+    Except String (Option (List Value)) := do
   let ds := toSlot .date (← matchToDate u dcfg dg writtenYear ref)
   let ts := toSlot .time (← matchToTime u tcfg tg ref)
-  dateTimeResolution u (toSlot .datetime (← mergeDateAndTime ds ts pmTime amTime))
+  dateTimeResolution u (toSlot .datetime (← mergeDateAndTime ds ts pmTime amTime shiftOnlyAmbiguous))
 
 end RTV.DtRes
